@@ -143,6 +143,21 @@ def run(ctx):
     from rules import shared
     shared.hash_pin_set(ctx, "C19-R5")
 
+    ctx.rule("C19-R6", "store-then-load: the PEM writers replace the destination file (create + truncate), so what is loaded back is what was stored")
+    for nm in ("Certificate::store_pemfile", "CertificateChain::store_pemfile", "PrivateKey::store_secret_pemfile"):
+        gg = A.find1(r"^wtransport::tls::%s::\{closure#0\}$" % nm)
+        opens = set()
+        trunc = False
+        for p in walk(gg):
+            for e in p.events:
+                if e[0] == "call" and e[1].endswith("OpenOptions::truncate") and len(e[2]) == 2 and canon(e[2][1]) in ("1", "true"):
+                    trunc = True
+                if e[0] == "call" and re.search(r"(^|::)fs::(File::create|File::create_new|write|OpenOptions::open|File::open|File::options)$|OpenOptions::(new|open)$", e[1]):
+                    opens.add(e[1].split("fs::")[-1])
+        ctx.check("C19-R6", "%s truncates the destination" % nm, bool(opens) and (opens <= {"File::create", "write"} or trunc),
+                  "%s opens its destination with %s: without truncation an older, longer file keeps its tail and `load_pemfile` returns certificates that were not stored"
+                  % (nm, sorted(opens)), where(gg), key="%s truncates" % nm)
+
     ctx.rule("C19-R4", "no undischarged panic obligation in the digest / DER / PEM parsers")
     n = 0
     lemma = {
